@@ -28,14 +28,14 @@ RULE = (
 ASSUMPTIONS = ["a non-eval sync replaces the whole parameter/attribute, name included (pinned by the repository's own tests)",
                "names unique per scope except deliberate re-binding; function bodies hold no named definitions"]
 CORE_ALLOWED = ()
-FRONTIER_KNOBS = ("kwarg_out", "valued_input", "cross_kind", "bad_address", "out_fn_has_defaults", "module_doc", "repeated_input_wrap")
+FRONTIER_KNOBS = ("kwarg_out", "valued_input", "cross_kind", "bad_address", "out_fn_has_defaults", "module_doc", "repeated_input_wrap", "valued_same_name")
 FLOORS = {"pairs>=2": 0.05, "wrap": 0.1, "eval": 0.02}
 WRAPS = (None, None, "Optional[{output_param}]", "Optional[Union[{output_param}, str]]")
 
 
 def budgets(tier):
     if tier == "quick":
-        return {"core": 300, "frontier": 40, "shards": 4}
+        return {"core": 1200, "frontier": 160, "shards": 4}
     return {"core": 16 * 800, "frontier": 16 * 150, "shards": 16}
 
 
@@ -106,6 +106,19 @@ def _case(draw, knob):
         outs = [l for l in outs if l[1] in ARGK] or outs
     if not ins or not outs:
         return {"input": inp, "output": out, "pairs": [], "wrap": None, "eval": ev, "cli": False}
+    wrap = None if ev else draw(st.sampled_from(WRAPS))
+    if knob == "repeated_input_wrap":
+        wrap = WRAPS[2]
+    if knob == "valued_same_name":
+        # a valued annotated assignment of the input synced onto an argument OF THE SAME NAME in a function with defaults
+        tg = [o for o in olocs if o[1] in ARGK and o[0][-1] not in ("self", "cls") and _method_with_defaults(otree, o[0])]
+        if tg:
+            tg_kw = [o for o in tg if o[1] == "kwonlyarg"]
+            o = draw(st.sampled_from(tg_kw if tg_kw and draw(st.booleans()) else tg))
+            nm = o[0][-1]
+            inp["body"] = [s_ for s_ in inp["body"] if s_.get("name") != nm]
+            inp["body"].append({"k": "ann", "name": nm, "typ": draw(st.sampled_from(progs.TYPES)), "value": draw(st.sampled_from(("7", "'k'", "0.25")))})
+            return {"input": inp, "output": out, "pairs": [[[nm], o[0]]], "wrap": wrap, "eval": False, "cli": draw(st.booleans())}
     n = draw(st.integers(1, 3))
     pairs, used_out, new_names = [], set(), set()
     for _ in range(n):
@@ -117,8 +130,8 @@ def _case(draw, knob):
         if knob != "out_fn_has_defaults":
             # shapes of open findings are excluded by construction everywhere but in their own frontier budget
             cands = [o for o in cands if not (o[1] in ARGK and _method_with_defaults(otree, o[0]))]
-        if knob != "repeated_input_wrap" and any(tuple(i[0]) == tuple(p[0]) for p in pairs):
-            continue
+        if knob != "repeated_input_wrap" and wrap and any(tuple(i[0]) == tuple(p[0]) for p in pairs):
+            continue  # one input paired with several outputs is fine without a wrap template (with one: finding KF-Y02)
         if not cands:
             continue
         o = draw(st.sampled_from(cands))
@@ -148,9 +161,6 @@ def _case(draw, knob):
         which = draw(st.integers(0, len(pairs) - 1))
         side = draw(st.integers(0, 1))
         pairs[which][side] = pairs[which][side][:-1] + ["nope"]
-    wrap = None if ev else draw(st.sampled_from(WRAPS))
-    if knob == "repeated_input_wrap":
-        wrap = WRAPS[2]
     return {"input": inp, "output": out, "pairs": pairs, "wrap": wrap, "eval": ev,
             "cli": draw(st.booleans())}
 
@@ -217,6 +227,8 @@ def run_case(case):
             "pairs=%d" % len(pairs)}
     if len(pairs) >= 2:
         tags.add("pairs>=2")
+    if len({tuple(i) for i, _ in pairs}) < len(pairs):
+        tags.add("repeated_input")
     resolvable = True
     for i, o in pairs:
         inode, ik = progs.model_resolve(itree, i)
@@ -226,10 +238,14 @@ def run_case(case):
         if inode is None or onode is None:
             resolvable = False
         else:
-            if (ik in ARGK) != (ok in ARGK + ("kwarg",)):
-                tags.add("cross_kind")
+            if (ik in ARGK) and ok not in ARGK + ("kwarg",):
+                tags.add("arg_to_stmt")
+            if ik not in ARGK and ok in ARGK + ("kwarg",):
+                tags.add("stmt_to_arg")
             if ik == "ann" and inode.value is not None:
                 tags.add("valued_input")
+                if ok in ARGK and _method_with_defaults(otree, o) and i[-1] == o[-1]:
+                    tags.add("valued_same_name:%s" % ok)
             if ok in ARGK and _method_with_defaults(otree, o):
                 tags.add("out_fn_has_defaults")
             if ok == "kwarg":
